@@ -231,6 +231,9 @@ class Client:
                 if self.__size_expr.match(a):
                     ret += [a]
                 else:
+                    if re.search(rb"[\r\n\0]", a):
+                        raise Error("CR, LF and NUL cannot be sent in a quoted string")
+                    a = a.replace(b"\\", b"\\\\").replace(b'"', b'\\"')
                     ret += [b'"' + a + b'"']
                 continue
             ret += [bytes(str(a).encode("utf-8"))]
